@@ -10,7 +10,7 @@ from ..gen import render
 
 def invalid_project(rng):
     """Projects with errors: repeated occurrences of one undefined name, several names, errors spread over imported files."""
-    kind = rng.choice(["same-name", "several-names", "multi-file", "mixed-classes", "many-imports"])
+    kind = rng.choice(["same-name", "several-names", "multi-file", "mixed-classes", "many-imports", "import-clashes", "hard-errors-in-files"])
     files = {}
     if kind == "same-name":
         k = rng.randrange(5, 13)
@@ -29,6 +29,24 @@ def invalid_project(rng):
     elif kind == "mixed-classes":
         files["main.asm"] = ("lda #300\n.const c = 1\n.const c = 2\nlda foo\nlda ($1234),y\nbne * + 500\nnomacro(1)\n.segment \"nope\"\nlda foo\n"
                              "x: nop\nx: brk\nsta foo\n")
+    elif kind == "import-clashes":
+        # two files define several of the same names (in different orders); the second `*` import cannot import any of them
+        names = ["n%d" % i for i in range(rng.randrange(2, 7))]
+        order = names[:]
+        rng.shuffle(order)
+        files["f0.asm"] = "".join("%s: nop\n" % n for n in names)
+        files["f1.asm"] = "".join(rng.choice(["%s: nop\n", ".const %s = 1\n"]) % n for n in order)
+        imp = rng.choice(['.import * from "f0.asm"\n.import * from "f1.asm"\n', '.import * as a from "f0.asm"\n.import * as a from "f1.asm"\n',
+                          '.import %s from "f0.asm"\n.import * from "f1.asm"\n' % ", ".join(names)])
+        files["main.asm"] = imp + "nop\n"
+    elif kind == "hard-errors-in-files":
+        # errors of different classes in several imported files and in the main file
+        n = rng.randrange(2, 5)
+        main = ['.import * from "f%d.asm"' % i for i in range(n)]
+        for i in range(n):
+            files["f%d.asm" % i] = "e%d: %s\n nop\n" % (i, rng.choice(["lda #300", "stx $10,x", "bne * + 400", ".const q%d = 1\n.const q%d = 2" % (i, i), "nomacro%d(1)" % i, "lda undefined%d" % i]))
+        main.append(rng.choice(["lda #999", "inc #1", "lda gone", "nop"]))
+        files["main.asm"] = "\n".join(main) + "\n"
     else:
         n = rng.randrange(3, 6)
         main = ['.import * from "f%d.asm"' % i for i in range(n)]
